@@ -97,6 +97,7 @@ def main():
                     print(done_props[prop][-2500:])
                     raise SystemExit("%s: no replay for clause %s after reverting %s" % (prop, clause, commit))
                 dest = os.path.join(VERIF, "replays", prop, "fixed-%s.json" % name)
+                os.makedirs(os.path.dirname(dest), exist_ok=True)
                 shutil.copy(cand[0], dest)
                 lines[(prop, name)] = "fixed: property=%s clause=%s commit=%s witness=replays/%s/fixed-%s.json %s" % (prop, clause, commit, prop, name, text)
                 print("witness", os.path.relpath(dest, VERIF))
